@@ -211,6 +211,9 @@ def _sites():
         # a type registered for 2.1 only is a custom type for a 2.0 object
         (5, "2.0 relationship to a 2.1-only type", "target_ref", "location--" + UU), (5, "2.0 relationship from a 2.1-only type", "source_ref", "note--" + UU),
         (6, "2.0 report referring to a 2.1-only type", "object_refs.1", "grouping--" + UU),
+        # names registered in another category (extensions, marking kinds) are not object types
+        (4, "relationship to a name registered as an extension", "target_ref", "archive-ext--" + UU), (4, "relationship from a marking kind", "source_ref", "tlp--" + UU),
+        (5, "2.0 relationship to a name registered as an extension", "target_ref", "ntfs-ext--" + UU),
     ]
     # custom properties given as null / [] are dropped: no custom content results (DROPPED sites carry no injection)
     return bases, inj
@@ -252,20 +255,30 @@ def flag_iff_strict_refuses(i: int, j: int) -> bool:
     """
     i, j = pick(i, NINJ + 1), pick(j, NINJ + 1)
     with Native():
-        ok = run_inject_case(i, j)
+        ok = run_inject_case(i, j) and run_inject_case(i, j, neutral=True)
     V.reached()
     return ok
 
 
-def run_inject_case(i, j):
-    """zero, one or two injections into the same base object (i == NINJ / j == NINJ mean 'none')"""
+NEUTRAL_EXT = {"extension-definition--99999999-f010-4473-83ec-1edf84858f4c": {"extension_type": "property-extension", "q": 1}}
+
+
+def run_inject_case(i, j, neutral=False):
+    """zero, one or two injections into the same base object (i == NINJ / j == NINJ mean 'none'); neutral: the object additionally carries an
+    unregistered property-extension named by an extension-definition id -- legal, not custom, and no licence for anything else"""
     picks = [x for x in (i, j) if x < NINJ]
     if len(picks) == 2 and (INJ[picks[0]][0] != INJ[picks[1]][0] or picks[0] >= picks[1]):
         return True
     bi = INJ[picks[0]][0] if picks else 0
     ver, base = BASES[bi]
+    if neutral:
+        if ver != "2.1" or base["type"] == "bundle":
+            return True
+        base = dict(base, extensions=dict(base.get("extensions", {}), **NEUTRAL_EXT))
     doc = base
     for x in picks:
+        if neutral and INJ[x][2] == "extensions":
+            return True                          # (that injection replaces the whole extensions value)
         doc = set_path(doc, INJ[x][2], INJ[x][3])
     has_injection = bool(picks)
 
